@@ -284,7 +284,7 @@ Section VMProof.
   Hypothesis Hfl : float_exact k = true.
 
   Lemma calc_avail_spec f : kbytes (k_mem k) "MemFree:" = Some f -> needs_estimate k = true ->
-    calc_avail (k_pagesize k) d (option_map k_zoneinfo (k_zone k)) = Val (sp_fallback k).
+    calc_avail (k_pagesize k) d (zs_of_opt (option_map k_zoneinfo (k_zone k))) = Val (sp_fallback k).
   Proof.
     intros Hf Hne. unfold calc_avail, calc_avail_gen, sp_fallback, sp_free.
     unfold K_MemFree, K_Cached, K_ActiveFile, K_InactiveFile, K_SReclaimable.
@@ -294,7 +294,7 @@ Section VMProof.
     destruct (kbytes (k_mem k) "Inactive(file):") as [inf|] eqn:E2; [|reflexivity].
     destruct (kbytes (k_mem k) "SReclaimable:") as [sr|] eqn:E3; [|reflexivity].
     destruct (k_zone k) as [zs|] eqn:E4; [|reflexivity].
-    cbn [option_map]. cbn [opt_forall] in Hz. rewrite (zone_low_printed zs Hz). cbn [obind].
+    cbn [option_map zs_of_opt zone_open]. cbn [opt_forall] in Hz. rewrite (zone_low_printed zs Hz). cbn [obind].
     pose proof (low_pages_nonneg zs Hz) as HL.
     pose proof (kbytes_nonneg _ _ _ Hw Hf) as N0. pose proof (kbytes_nonneg _ _ _ Hw E1) as N1.
     pose proof (kbytes_nonneg _ _ _ Hw E2) as N2. pose proof (kbytes_nonneg _ _ _ Hw E3) as N3.
@@ -313,7 +313,7 @@ Section VMProof.
   Qed.
 
   Theorem vm_of_dict_spec : has_total_free k = true ->
-    vm_of_dict (k_pagesize k) d (option_map k_zoneinfo (k_zone k)) = Val (spec_vm k).
+    vm_of_dict (k_pagesize k) d (zs_of_opt (option_map k_zoneinfo (k_zone k))) = Val (spec_vm k).
   Proof.
     intros Htf. unfold has_total_free in Htf.
     destruct (kbytes (k_mem k) "MemTotal:") as [t|] eqn:Et; [|discriminate].
@@ -323,8 +323,8 @@ Section VMProof.
       K_Inactive, K_Inact_dirty, K_Inact_clean, K_Inact_laundry, K_Slab, K_MemAvailable.
     rewrite !Hd, Et, Ef. cbn [of_option obind].
     assert (HA : match kbytes (k_mem k) "MemAvailable:" with
-                 | Some a => if a =? 0 then calc_avail (k_pagesize k) d (option_map k_zoneinfo (k_zone k)) else Val a
-                 | None => calc_avail (k_pagesize k) d (option_map k_zoneinfo (k_zone k)) end
+                 | Some a => if a =? 0 then calc_avail (k_pagesize k) d (zs_of_opt (option_map k_zoneinfo (k_zone k))) else Val a
+                 | None => calc_avail (k_pagesize k) d (zs_of_opt (option_map k_zoneinfo (k_zone k))) end
                  = Val (sp_avail_raw k)).
     { unfold sp_avail_raw. pose proof (calc_avail_spec f Ef) as C. unfold needs_estimate in C.
       destruct (kbytes (k_mem k) "MemAvailable:") as [a|]; [|now apply C].
@@ -371,7 +371,7 @@ Theorem vm_exact_gen len k : wf_kernel k = true -> has_total_free k = true -> fl
 Proof.
   intros Hwf Htf Hfl HL. apply wf_kernel_inv in Hwf as [Hm [Hz _]].
   destruct (parse_meminfo_printed len (k_mem k) Hm HL) as [d [Hp Hd]].
-  unfold virtual_memory_gen. rewrite Hp. cbn [obind].
+  unfold virtual_memory_gen, virtual_memory_z. rewrite Hp. cbn [obind].
   now apply vm_of_dict_spec.
 Qed.
 
@@ -381,11 +381,12 @@ Theorem vm_exact k : wf_kernel k = true -> has_total_free k = true -> float_exac
 Proof. intros Hwf Htf Hfl. apply (vm_exact_gen true); auto. Qed.
 
 (* when /proc/zoneinfo is not consulted (MemAvailable present and non-zero, or an input of the
-   estimate missing) its content -- present, absent, unparsable, any bytes -- does not matter *)
-Theorem vm_zoneinfo_unread len k (z : option bytes) :
+   estimate missing) its state -- present, absent, unopenable, unreadable, unparsable, any bytes --
+   does not matter *)
+Theorem vm_zoneinfo_unread len k (z : zstate) :
   wf_kernel k = true -> has_total_free k = true -> (len = true \/ no_junk (k_mem k) = true) ->
   zone_read k = false ->
-  virtual_memory_gen len (k_pagesize k) (k_meminfo (k_mem k)) z = Val (spec_vm k).
+  virtual_memory_z len (k_pagesize k) (k_meminfo (k_mem k)) z = Val (spec_vm k).
 Proof.
   intros Hwf Htf HL Hzr.
   (* the same kernel without zoneinfo has the same demanded answer and the same model run *)
@@ -408,7 +409,7 @@ Proof.
         (kbytes (k_mem k) "SReclaimable:"); try discriminate Hzr; reflexivity. }
   rewrite <- S0, <- E0.
   (* the model does not look at z *)
-  unfold virtual_memory_gen. destruct (parse_meminfo len (k_meminfo (k_mem k))) as [d| |] eqn:Ep; try reflexivity.
+  unfold virtual_memory_gen, virtual_memory_z. destruct (parse_meminfo len (k_meminfo (k_mem k))) as [d| |] eqn:Ep; try reflexivity.
   cbn [obind].
   apply wf_kernel_inv in Hwf as [Hm _].
   destruct (parse_meminfo_printed len (k_mem k) Hm HL) as [d' [Hp Hd]]. rewrite Hp in Ep. injection Ep as ->.
@@ -431,18 +432,19 @@ Theorem vm_zoneinfo_raw_outcomes len k (z : bytes) :
 Proof.
   intros Hwf Htf HL. apply wf_kernel_inv in Hwf as [Hm _].
   destruct (parse_meminfo_printed len (k_mem k) Hm HL) as [d [Hp Hd]].
-  unfold virtual_memory_gen. rewrite Hp. cbn [obind].
+  unfold virtual_memory_gen, virtual_memory_z. rewrite Hp. cbn [obind zs_of_opt].
   unfold has_total_free in Htf.
   destruct (kbytes (k_mem k) "MemTotal:") as [t|] eqn:Et; [|discriminate].
   destruct (kbytes (k_mem k) "MemFree:") as [f|] eqn:Ef; [|discriminate].
   unfold vm_of_dict. unfold K_MemTotal, K_MemFree. rewrite !Hd, Et, Ef. cbn [of_option obind].
-  assert (C : (exists n, calc_avail (k_pagesize k) d (Some z) = Val n) \/
-              calc_avail (k_pagesize k) d (Some z) = Exc IndexError \/
-              calc_avail (k_pagesize k) d (Some z) = Exc ValueError).
+  assert (C : (exists n, calc_avail (k_pagesize k) d (ZContent z) = Val n) \/
+              calc_avail (k_pagesize k) d (ZContent z) = Exc IndexError \/
+              calc_avail (k_pagesize k) d (ZContent z) = Exc ValueError).
   { unfold calc_avail, calc_avail_gen. unfold K_MemFree. rewrite Hd, Ef. cbn [of_option obind].
     destruct (dget K_ActiveFile d); [|left; eexists; reflexivity].
     destruct (dget K_InactiveFile d); [|left; eexists; reflexivity].
     destruct (dget K_SReclaimable d); [|left; eexists; reflexivity].
+    cbn [zone_open].
     destruct (zone_low_outcomes (lines_keep z) 0) as [[n ->]|[-> | ->]]; cbn [obind]; eauto. }
   destruct (dget K_MemAvailable d) as [a|]; [destruct (a =? 0)|].
   - destruct C as [[n ->]|[-> | ->]]; cbn [obind]; eauto.
